@@ -189,6 +189,9 @@ func cGv(v any) string {
 	case cbor.SimpleValue:
 		return "(GSimple " + cU(uint64(t)) + ")"
 	case float64:
+		if math.IsNaN(t) {
+			return "(GFloat 9221120237041090561)" // every NaN is observed as one canonical NaN
+		}
 		return "(GFloat " + cU(math.Float64bits(t)) + ")"
 	case float32:
 		return "GOther"
